@@ -261,6 +261,17 @@ func genForm(r *rand.Rand, odd bool) []string {
 		for k := r.IntN(3) + 1; 0 < k; k-- {
 			sb.WriteString(" " + fw.Pick(r, atoms))
 		}
+		if r.IntN(12) == 0 {
+			// a long string: lines and files that cross the 4096-byte buffer of
+			// the loader's line reader at arbitrary offsets; position-dependent
+			// content so that a shifted or repeated block is visible
+			n := []int{100, 1000, 4000 + r.IntN(200), 8100 + r.IntN(200), r.IntN(6000)}[r.IntN(5)]
+			sb.WriteString(" \"")
+			for j := 0; sb.Len() < n; j++ {
+				fmt.Fprintf(&sb, "%d.", j)
+			}
+			sb.WriteString("\"")
+		}
 		if i == n-1 {
 			sb.WriteString(")")
 		}
